@@ -3,9 +3,11 @@
    [run pick w mind lcs input] is the sequence handed to the outflow closure of
    buffer_sort_messages(inflow = input, lcs_r = lcs, windows_size_secs = w, min_buffer_delay_us = mind)
    as a value of the panic monad; [pick] resolves the BinaryHeap's freedom among entries with equal
-   (calculated time, index) and every theorem quantifies over all [pick].  [calc_spec lcs m] is the calculated
-   time of the property text (lifecycle start + timestamp capped at the reception time; the reception time for
-   control requests; start 0 for ids the table does not know). *)
+   (calculated time, index) and every theorem quantifies over all [pick].  [lcs : tables] is the lifecycle table
+   as a function of the moment of the lookup (it may change while the function runs); [fixed t] is the table [t]
+   that does not change.  [calc_spec t m] is the calculated time of the property text (lifecycle start +
+   timestamp capped at the reception time; the reception time for control requests; start 0 for ids the table
+   does not know). *)
 From Coq Require Import List NArith Bool Permutation Sorted Lia.
 From AdltV Require Import Base.Res Base.MachInt Sort.BufferSort Sort.BufferSortProofs Exec.C10.
 Import ListNotations.
@@ -13,17 +15,18 @@ Open Scope N_scope.
 
 (* nothing lost, duplicated or altered: whenever the function returns — for EVERY stream, table, window size,
    minimum delay and heap behaviour — the delivered sequence is a permutation of the input (the very same records) *)
-Theorem C10_sort_perm pick w mind lcs input out :
+Theorem C10_sort_perm pick w mind (lcs : tables) input out :
   run pick w mind lcs input = Ok out -> Permutation out input.
 Proof. exact (run_perm pick w mind lcs input out). Qed.
 
 (* ... and it does return (no panic, fuel never exhausted) for every window size >= 1 as long as the u64 sums the
    code forms cannot overflow: reception times <= B with 2B + min_delay + 1000 s + w s within u64, and
-   lifecycle start + timestamp within u64 for the non-control messages *)
-Theorem C10_sort_no_panic pick w mind B lcs input :
+   lifecycle start + timestamp within u64 for the non-control messages (whatever version of the table is seen) *)
+Theorem C10_sort_no_panic pick w mind B (lcs : tables) input :
   1 <= w ->
   2 * B + mind + YOUNG_DELAY + w * US_PER_SEC <= u64max ->
-  Forall (fun m => m_rt m <= B /\ (m_ctrl m = false -> lc_start lcs (m_lc m) + m_ts m * 100 <= u64max)) input ->
+  Forall (fun m => m_rt m <= B /\
+                   (m_ctrl m = false -> forall i np, lc_start (lcs i np) (m_lc m) + m_ts m * 100 <= u64max)) input ->
   exists out, run pick w mind lcs input = Ok out /\ Permutation out input.
 Proof.
   intros Hw Hov Hin. destruct (run_ok w mind B Hw Hov lcs pick input Hin) as [out Ho].
@@ -32,31 +35,31 @@ Qed.
 
 (* ordered under bounded delay: reception times never decrease, indices increase, no calculated time lies more
    than the minimum delay before the reception time  ==>  delivered in (calculated time, index) order *)
-Theorem C10_sort_ordered_under_bound pick w mind lcs input out :
+Theorem C10_sort_ordered_under_bound pick w mind (lcs : table) input out :
   StronglySorted (fun a b => m_rt a <= m_rt b) input ->
   StronglySorted (fun a b => m_index a < m_index b) input ->
   Forall (fun m => m_rt m - calc_spec lcs m <= mind) input ->
-  run pick w mind lcs input = Ok out ->
+  run pick w mind (fixed lcs) input = Ok out ->
   StronglySorted (before lcs) out.
 Proof. exact (run_sorted pick w mind lcs input out). Qed.
 
 (* ties in original order, spelled out: two messages with the same calculated time leave in the order they came *)
-Theorem C10_sort_ties_in_original_order pick w mind lcs input out l1 a l2 b l3 :
+Theorem C10_sort_ties_in_original_order pick w mind (lcs : table) input out l1 a l2 b l3 :
   StronglySorted (fun a b => m_rt a <= m_rt b) input ->
   StronglySorted (fun a b => m_index a < m_index b) input ->
   Forall (fun m => m_rt m - calc_spec lcs m <= mind) input ->
-  run pick w mind lcs input = Ok out ->
+  run pick w mind (fixed lcs) input = Ok out ->
   out = l1 ++ a :: l2 ++ b :: l3 -> calc_spec lcs a = calc_spec lcs b ->
   exists i1 i2 i3, input = i1 ++ a :: i2 ++ b :: i3.
 Proof. exact (run_ties_original_order pick w mind lcs input out l1 a l2 b l3). Qed.
 
 (* the release threshold (max_buffer_time_us) never falls below the configured minimum, after any prefix *)
-Theorem C10_threshold_ge_min pick w mind lcs input o s :
+Theorem C10_threshold_ge_min pick w mind (lcs : tables) input o s :
   run_state pick w mind lcs (init mind) input = Ok (o, s) -> mind <= s_thr s.
 Proof. intros H. eapply run_state_thr; [exact H|]. cbn. lia. Qed.
 
 (* hence whatever is released while message m is processed is older than m by more than the minimum delay *)
-Theorem C10_released_older_than_min_delay pick w mind lcs input o s m out s' :
+Theorem C10_released_older_than_min_delay pick w mind (lcs : tables) input o s m out s' :
   run_state pick w mind lcs (init mind) input = Ok (o, s) ->
   process pick w mind lcs s m = Ok (out, s') ->
   Forall (fun x => fst x + mind < m_rt m) out.
@@ -65,14 +68,14 @@ Proof.
 Qed.
 
 (* distinct indices leave the heap no freedom: the output does not depend on the tie-breaking *)
-Theorem C10_sort_deterministic_if_indices_distinct p1 p2 w mind lcs input :
+Theorem C10_sort_deterministic_if_indices_distinct p1 p2 w mind (lcs : tables) input :
   NoDup (map m_index input) -> run p1 w mind lcs input = run p2 w mind lcs input.
 Proof. exact (run_unique p1 p2 w mind lcs input). Qed.
 
 (* outside the quantifier (documented): window size 0 panics on the very first message —
    `entry.1.front().unwrap()` on the empty deque at utils/mod.rs:734, before `windows_size_secs - 1` can underflow *)
-Theorem C10_window_size_zero_panics pick mind lcs m r :
-  (m_ctrl m = false -> lc_start lcs (m_lc m) + m_ts m * 100 <= u64max) ->
+Theorem C10_window_size_zero_panics pick mind (lcs : tables) m r :
+  (m_ctrl m = false -> lc_start (lcs 0%nat 0%nat) (m_lc m) + m_ts m * 100 <= u64max) ->
   run pick 0 mind lcs (m :: r) = Panic site_unwrap.
 Proof. exact (run_window_zero_panics pick mind lcs m r). Qed.
 
@@ -80,8 +83,8 @@ Proof. exact (run_window_zero_panics pick mind lcs m r). Qed.
    start_time = u64::MAX (the marker Lifecycle::merge leaves in a merged lifecycle) plus any timestamp > 0,
    and a minimum delay within 1000 s of u64::MAX *)
 Theorem C10_u64_overflow_panics :
-  run pick_first 3 0 (table_of (Some [(1, u64max)])) (tag_msgs 0 [(0, 1000000, 1, 1, 0, 1)]) = Panic site_add_overflow /\
-  run pick_first 3 (u64max - 5) (table_of (Some [])) (tag_msgs 0 [(0, 1000000, 1, 1, 0, 1)]) = Panic site_add_overflow.
+  run pick_first 3 0 (fixed (table_of (Some [(1, u64max)]))) (tag_msgs 0 [(0, 1000000, 1, 1, 0, 1)]) = Panic site_add_overflow /\
+  run pick_first 3 (u64max - 5) (fixed (table_of (Some []))) (tag_msgs 0 [(0, 1000000, 1, 1, 0, 1)]) = Panic site_add_overflow.
 Proof. split; vm_compute; reflexivity. Qed.
 
 (* the acceptor of the correspondence check only accepts outputs of runs of the model *)
@@ -90,7 +93,7 @@ Proof.
   induction a as [|x r IH]; intros [|y s] H; try discriminate; [reflexivity|].
   cbn in H. apply andb_true_iff in H. destruct H as [H1 H2]. apply N.eqb_eq in H1. subst. rewrite (IH s H2). reflexivity.
 Qed.
-Theorem C10_acceptor_sound w mind lcs input tags :
+Theorem C10_acceptor_sound w mind (lcs : tables) input tags :
   accepts w mind lcs input tags = true ->
   exists pick out, run pick w mind lcs input = Ok out /\ map m_tag out = tags.
 Proof.
@@ -109,7 +112,7 @@ Example C10_nonvacuous :
   StronglySorted (fun a b => m_rt a <= m_rt b) nv_input /\
   StronglySorted (fun a b => m_index a < m_index b) nv_input /\
   Forall (fun m => m_rt m - calc_spec nv_lcs m <= 500000) nv_input /\
-  exists out, run pick_first 2 500000 nv_lcs nv_input = Ok out /\ map m_tag out = [1; 0; 2; 4; 3; 5] /\
+  exists out, run pick_first 2 500000 (fixed nv_lcs) nv_input = Ok out /\ map m_tag out = [1; 0; 2; 4; 3; 5] /\
               StronglySorted (before nv_lcs) out.
 Proof.
   assert (H1 : StronglySorted (fun a b => m_rt a <= m_rt b) nv_input)
@@ -119,7 +122,7 @@ Proof.
   assert (H3 : Forall (fun m => m_rt m - calc_spec nv_lcs m <= 500000) nv_input)
     by (repeat constructor; vm_compute; discriminate).
   split; [exact H1|]. split; [exact H2|]. split; [exact H3|].
-  destruct (run pick_first 2 500000 nv_lcs nv_input) as [out| |] eqn:E; try (vm_compute in E; discriminate).
+  destruct (run pick_first 2 500000 (fixed nv_lcs) nv_input) as [out| |] eqn:E; try (vm_compute in E; discriminate).
   exists out. split; [reflexivity|]. split.
   - vm_compute in E. inversion E. reflexivity.
   - exact (C10_sort_ordered_under_bound _ _ _ _ _ _ H1 H2 H3 E).
